@@ -178,7 +178,7 @@ def strategy():
             sel = draw(st.sampled_from(["fetch", "fetch", "fetch", "metadata", "list_offsets"]))
             if sel == "fetch":
                 act = draw(st.sampled_from(["error", "drop", "no_reply", "delay", "swallow"]))
-                code = draw(st.sampled_from([6, 3, 5, 7, 9]))
+                code = draw(st.sampled_from([6, 3, 5, 7, 9, 78]))
             elif sel == "metadata":
                 # a topic-level metadata error changes the partition set a group-less subscriber
                 # is assigned (fresh positions by design), so it is only drawn for manual assignment
